@@ -62,6 +62,10 @@ UsesStdJson(s, M) ==
 \* a map whose value message has an unwrap field (the container encodes its scalar siblings itself)
 UnwrapContainer(s, M) == \E f \in Range(M.fields) : f.card = "map" /\ f.kind = "message" /\ HasMsg(s, f.ref) /\ HasUnwrap(MsgByName(s, f.ref))
 StdJsonOnPath(s, top) == \E n \in Reach(s, {top}, {}) : UsesStdJson(s, MsgByName(s, n))
+\* a flattened field whose message has an array / map JSON form (root unwrap): nothing to merge
+FlattenOfRootUnwrap(s, top) ==
+  \E n \in Reach(s, {top}, {}) : \E f \in Range(MsgByName(s, n).fields) :
+     f.ann.flatten /\ HasMsg(s, f.ref) /\ IsRootUnwrap(MsgByName(s, f.ref))
 \* enum custom values / numeric enum encoding have no effect in the Go codecs
 EnumAnnotated(s, top) ==
   \E n \in Reach(s, {top}, {}) : \E f \in Range(MsgByName(s, n).fields) :
@@ -152,20 +156,26 @@ EncPlainNested(s, x) == EncVariant(s, x, TRUE, FALSE)
 (* Round trip (C04): decoding what was encoded yields the value up to the  *)
 (* documented losses.  Identity is compared on tokens.                     *)
 (***************************************************************************)
-RECURSIVE NormVal(_, _, _), NormMsg(_, _)
+\* fl = TRUE additionally applies the loss of the finding D_flatten_empty_child_presence: a flattened
+\* child that is set but contributes no member (all its fields at their defaults) comes back unset
+RECURSIVE NormValF(_, _, _, _), NormMsgF(_, _, _)
 NormLeaf(f, x) == CASE f.ann.ts = "UNIX_SECONDS" -> x.tokS [] f.ann.ts = "UNIX_MILLIS" -> x.tokMs
                     [] f.ann.ts = "DATE" -> x.tokDate [] OTHER -> x.tok
-NormVal(s, f, x) ==
+NormValF(s, f, x, fl) ==
   CASE x.t = "s"  -> [t |-> "s", tok |-> NormLeaf(f, x)]
-    [] x.t = "l"  -> [t |-> "l", es |-> [i \in DOMAIN x.es |-> NormVal(s, f, x.es[i])]]
-    [] x.t = "mp" -> [t |-> "mp", es |-> {<<x.es[i].k, NormVal(s, f, x.es[i].v)>> : i \in DOMAIN x.es}]
-    [] x.t = "m"  -> NormMsg(s, x)
-NormMsg(s, x) ==
+    [] x.t = "l"  -> [t |-> "l", es |-> [i \in DOMAIN x.es |-> NormValF(s, f, x.es[i], fl)]]
+    [] x.t = "mp" -> [t |-> "mp", es |-> {<<x.es[i].k, NormValF(s, f, x.es[i].v, fl)>> : i \in DOMAIN x.es}]
+    [] x.t = "m"  -> NormMsgF(s, x, fl)
+NormMsgF(s, x, fl) ==
   IF ~HasMsg(s, x.type) THEN [t |-> "s", tok |-> x.tok]
   ELSE LET M == MsgByName(s, x.type) IN
        [t |-> "m", fs |-> { LET f == FieldOf(M, p.name)
                                 lost == p.has /\ p.v.t = "m" /\ p.v.empty /\ f.ann.empty \in {"NULL", "OMIT"}
-                            IN <<p.name, IF p.has /\ ~lost THEN NormVal(s, f, p.v) ELSE [t |-> "unset"]>> : p \in Range(x.fs) }]
+                                lostFlat == fl /\ p.has /\ p.v.t = "m" /\ f.ann.flatten /\ HasMsg(s, p.v.type)
+                                            /\ LET j == EncMsgVal(s, p.v, TRUE, Contract) IN j.t = "obj" /\ j.m = {}
+                            IN <<p.name, IF p.has /\ ~lost /\ ~lostFlat THEN NormValF(s, f, p.v, fl) ELSE [t |-> "unset"]>> : p \in Range(x.fs) }]
+NormVal(s, f, x) == NormValF(s, f, x, FALSE)
+NormMsg(s, x) == NormMsgF(s, x, FALSE)
 
 \* the same projection of a decoded value (no losses applied: what came back is what it is)
 RECURSIVE PlainVal(_), PlainMsg(_)
@@ -189,9 +199,11 @@ SatisfiesRequired(s, x) ==
           /\ (FieldOf(M, p.name).rules.required => Populated(p))
           /\ (p.has /\ p.v.t = "m" => SatisfiesRequired(s, p.v))
           /\ (p.has /\ p.v.t = "l" => \A i \in DOMAIN p.v.es : p.v.es[i].t = "m" => SatisfiesRequired(s, p.v.es[i]))
+          /\ (p.has /\ p.v.t = "mp" => \A i \in DOMAIN p.v.es : p.v.es[i].v.t = "m" => SatisfiesRequired(s, p.v.es[i].v))
 
 \* the losses are allowed, not required: what comes back is the value itself or its normal form
 RoundTripOK(s, x, back) == PlainMsg(back) \in {NormMsg(s, x), PlainMsg(x)}
+RoundTripFlatLossOK(s, x, back) == PlainMsg(back) = NormMsgF(s, x, TRUE)
 
 \* Skeleton of a value for the finding D_stdjson_children: the children a message encodes with
 \* encoding/json (flattened fields, members of a discriminated oneof) are reduced to their presence;
